@@ -11,7 +11,10 @@
 #include "fslog.hpp"
 #include "mcmodel.hpp"
 
+#include "mpienv.hpp"
+
 #include "hep/mc.hpp"
+#include "hep/mc-mpi.hpp"
 
 #include <cmath>
 #include <dirent.h>
@@ -122,6 +125,220 @@ static std::string describe_op(vf::fs_op const& op)
     case vf::fs_truncate: return "truncate(" + p + ", " + std::to_string(op.length) + ")";
     default: return "sync(" + p + ")";
     }
+}
+
+// ---- family G: several MPI processes share the directory -------------------------------------------------------------
+// The ranks run under the MPI environment model (harness/mpienv.hpp) with the built-in mpi_callback in a writing mode; the
+// file system operations of every rank are logged per callback invocation.  Between two collectives the ranks are not
+// ordered, so the operations the ranks issue in the callback of the same iteration may interleave in any way: every
+// interleaving is enumerated (depth-first over the positions in the per-rank sequences, states hashed) on an inode-level
+// model of the directory (a descriptor keeps writing into the file it opened, whatever that file is called by then), and
+// in every state reached - the run can be killed there - the checkpoint file must be absent or a complete checkpoint.
+struct ifs_state
+{
+    std::map<std::string, int> names;                 // directory: name -> inode
+    std::vector<std::string> inodes;
+    std::vector<std::map<std::string, std::pair<int, long>>> handles;   // per rank: path it opened -> (inode, position)
+    std::vector<sz> pos;                              // per rank: next operation
+    std::string key() const
+    {
+        std::string k;
+        for (auto p : pos) k += std::to_string(p) + ",";
+        for (auto const& n : names) k += n.first + ">" + std::to_string(n.second) + ";";
+        for (auto const& h : handles) { k += "|"; for (auto const& e : h) k += e.first + ">" + std::to_string(e.second.first) + "@" + std::to_string(e.second.second) + ";"; }
+        for (auto const& i : inodes) k += "#" + std::to_string(vf::hash_str(i)) + ":" + std::to_string(i.size());
+        return k;
+    }
+};
+
+static void ifs_apply(ifs_state& st, int rank, vf::fs_op const& op, sz bytes /* of a write; npos = all */)
+{
+    if (op.failed) return;
+    auto& h = st.handles[rank];
+    switch (op.kind)
+    {
+    case vf::fs_open:
+    {
+        auto n = st.names.find(op.path);
+        int ino;
+        if (n == st.names.end()) { ino = int(st.inodes.size()); st.inodes.push_back(""); st.names[op.path] = ino; }
+        else { ino = n->second; if (op.trunc) st.inodes[ino].clear(); }
+        h[op.path] = std::make_pair(ino, 0L);
+        break;
+    }
+    case vf::fs_write:
+    {
+        auto e = h.find(op.path);
+        if (e == h.end()) break;
+        std::string const d = bytes == std::string::npos ? op.data : op.data.substr(0, bytes);
+        std::string& f = st.inodes[e->second.first];
+        sz const at = op.offset < 0 ? f.size() : sz(e->second.second);
+        if (f.size() < at + d.size()) f.resize(at + d.size(), '\0');
+        f.replace(at, d.size(), d);
+        e->second.second = long(at + d.size());
+        break;
+    }
+    case vf::fs_close: h.erase(op.path); break;
+    case vf::fs_rename:
+    {
+        auto n = st.names.find(op.path);
+        if (n == st.names.end() || op.path == op.path2) break;     // (a rename whose source is gone fails and changes nothing)
+        int const ino = n->second; st.names.erase(n); st.names[op.path2] = ino;
+        break;
+    }
+    case vf::fs_unlink: st.names.erase(op.path); break;
+    case vf::fs_truncate: { auto n = st.names.find(op.path); if (n != st.names.end()) st.inodes[n->second].resize(op.length); break; }
+    default: break;
+    }
+}
+
+template <typename C>
+struct mpi_mark_cb
+{
+    hep::mpi_callback<C> inner;
+    std::vector<sz>* marks;
+    bool operator()(MPI_Comm comm, C const& c) { bool const more = inner(comm, c); marks->push_back(vf::fs().log.size()); return more; }
+};
+
+template <typename T, int K> struct mpi_kit;
+template <typename T> struct mpi_kit<T, 0>
+{
+    template <typename CB> static typename kit<T, 0>::C run(std::vector<sz> const& calls, CB cb) { return hep::mpi_plain(MPI_COMM_WORLD, hep::make_integrand<T>(pf<T>(), 2), calls, kit<T, 0>::fresh(), cb); }
+};
+template <typename T> struct mpi_kit<T, 1>
+{
+    template <typename CB> static typename kit<T, 1>::C run(std::vector<sz> const& calls, CB cb) { return hep::mpi_vegas(MPI_COMM_WORLD, hep::make_integrand<T>(pf<T>(), 4), calls, kit<T, 1>::fresh(), cb); }
+};
+template <typename T> struct mpi_kit<T, 2>
+{
+    template <typename CB> static typename kit<T, 2>::C run(std::vector<sz> const& calls, CB cb) { return hep::mpi_multi_channel(MPI_COMM_WORLD, hep::make_multi_channel_integrand<T>(mf<T>(), 1, kit<T, 2>::map(), 1, 30), calls, kit<T, 2>::fresh(), cb); }
+};
+
+template <typename T, int K>
+static void mpi_scenario(report& r, int mode, int world, bool preexisting)
+{
+    using C = typename kit<T, K>::C;
+    std::string const base = std::string(vf::type_name<T>()) + " G kind=" + std::to_string(K) + " mode=" + std::to_string(mode) + " world=" + std::to_string(world) + " preexisting=" + std::to_string(preexisting);
+    if (!r.want(base)) return;
+    r.eval();
+    hep::callback_mode const cm = mode == 0 ? hep::callback_mode::silent_and_write_chkpt : hep::callback_mode::verbose_and_write_chkpt;
+    std::vector<std::vector<vf::fs_op>> logs(world);
+    std::vector<std::vector<sz>> marks(world);
+    std::vector<std::string> texts(world);
+    clear_dir();
+    vf::mpi_env env(world);
+    auto const out = env.run([&](int rank) {
+        // (a rank is re-executed for every collective; only the execution that runs to the end leaves its log)
+        clear_dir();
+        vf::fs() = vf::fs_state();
+        vf::fs().dir = g_dir; vf::fs().active = true;
+        std::vector<sz> m;
+        struct off { ~off() { vf::fs().active = false; } } guard;
+        auto const c = mpi_kit<T, K>::run(g_calls, mpi_mark_cb<C>{hep::mpi_callback<C>(cm, g_chk), &m});
+        vf::fs().active = false;
+        logs[rank] = vf::fs().log; marks[rank] = m; texts[rank] = text_of(c);
+    });
+    clear_dir();
+    if (!out.ok) { r.violate("mpi-run-failed", base, base + ": " + out.what); return; }
+    if (vf::fs().offset_mismatch) { std::fprintf(stderr, "short or positional write: not modelled\n"); std::exit(2); }
+    for (int k = 0; k != world; ++k) if (marks[k].size() != g_calls.size()) { r.violate("mpi-run-failed", base, base + ": rank " + std::to_string(k) + " invoked the callback " + std::to_string(marks[k].size()) + " times"); return; }
+    // complete checkpoints: what rank 0 returns after 0..n iterations (all ranks return the same, C04/C19)
+    std::vector<std::string> golden;
+    {
+        vf::mpi_env e1(world);
+        golden.push_back(text_of(kit<T, K>::fresh()));
+        for (sz n = 1; n <= g_calls.size(); ++n)
+        {
+            std::string t;
+            std::vector<sz> const part(g_calls.begin(), g_calls.begin() + n);
+            auto const o = e1.run([&](int rank) { auto const c = mpi_kit<T, K>::run(part, vf::never_stop_mpi()); if (rank == 0) t = text_of(c); });
+            if (!o.ok) { r.violate("mpi-run-failed", base, base + ": " + o.what); return; }
+            golden.push_back(t);
+        }
+    }
+    std::uint64_t states = 0, transitions = 0, writers_max = 0;
+    ifs_state st;
+    st.handles.resize(world);
+    if (preexisting) { st.names[g_chk] = 0; st.inodes.push_back(golden[0]); }
+    sz total_ops = 0;
+    for (sz it = 0; it != g_calls.size(); ++it)
+    {
+        std::vector<std::vector<vf::fs_op>> seq(world);
+        std::uint64_t writers = 0;
+        for (int k = 0; k != world; ++k)
+        {
+            seq[k].assign(logs[k].begin() + (it == 0 ? 0 : marks[k][it - 1]), logs[k].begin() + marks[k][it]);
+            writers += !seq[k].empty();
+            total_ops += seq[k].size();
+        }
+        writers_max = std::max(writers_max, writers);
+        // depth-first over all interleavings of the ranks' sequences of this iteration
+        std::set<std::string> seen;
+        std::vector<ifs_state> stack;
+        st.pos.assign(world, 0);
+        stack.push_back(st);
+        std::vector<ifs_state> ends;
+        bool bad = false;
+        auto judge = [&](ifs_state const& s, std::string const& where) {
+            auto const f = s.names.find(g_chk);
+            if (f == s.names.end())
+            {
+                if (preexisting || it > 0) { r.violate("checkpoint-file-vanished", base, base + " iteration " + std::to_string(it) + ": killed " + where + ": the checkpoint file is gone"); bad = true; }
+                return;
+            }
+            std::string const& content = s.inodes[f->second];
+            bool ok = false;
+            for (sz j = (it == 0 ? 0 : it); j <= it + 1 && !ok; ++j) ok = content == golden[j];
+            if (it == 0 && preexisting) ok = ok || content == golden[0];
+            if (!ok)
+            {
+                r.violate(content.empty() ? "incomplete-file/empty-after-truncate" : "incomplete-file/partial", base, base + " iteration " + std::to_string(it) + ": killed " + where
+                    + ": the checkpoint file holds " + std::to_string(content.size()) + " bytes that are neither the previous nor the new checkpoint (" + std::to_string(writers) + " processes write)");
+                bad = true;
+            }
+        };
+        while (!stack.empty() && !bad)
+        {
+            ifs_state cur = stack.back(); stack.pop_back();
+            if (!seen.insert(cur.key()).second) continue;
+            ++states;
+            std::string where = "at positions";
+            for (int k = 0; k != world; ++k) where += " " + std::to_string(cur.pos[k]) + "/" + std::to_string(seq[k].size());
+            judge(cur, where);
+            bool any = false;
+            for (int k = 0; k != world && !bad; ++k)
+            {
+                if (cur.pos[k] == seq[k].size()) continue;
+                any = true;
+                vf::fs_op const& op = seq[k][cur.pos[k]];
+                // a write that is killed half way (any prefix changes the file the same way: one representative, and the first byte)
+                if (op.kind == vf::fs_write && op.data.size() > 1)
+                    for (sz b : {sz(1), op.data.size() / 2})
+                    {
+                        ifs_state half = cur; ifs_apply(half, k, op, b); ++states;
+                        judge(half, where + ", rank " + std::to_string(k) + " " + std::to_string(b) + " bytes into " + describe_op(op));
+                    }
+                ifs_state nxt = cur; ifs_apply(nxt, k, op, std::string::npos); ++nxt.pos[k]; ++transitions;
+                stack.push_back(nxt);
+            }
+            if (!any) ends.push_back(cur);
+        }
+        if (bad) return;
+        // every interleaving must end in the same directory (else the next iteration starts from several states)
+        for (sz e = 1; e < ends.size(); ++e) if (ends[e].key() != ends[0].key()) { r.violate("interleaving-dependent-directory", base, base + " iteration " + std::to_string(it) + ": the directory after the iteration depends on the interleaving"); return; }
+        if (ends.empty()) { std::fprintf(stderr, "HARNESS: no end state\n"); std::exit(2); }
+        st = ends[0];
+        auto const f = st.names.find(g_chk);
+        if (f == st.names.end() || st.inodes[f->second] != golden[it + 1])
+        { r.violate("file-after-the-run-is-not-the-final-checkpoint", base, base + ": after iteration " + std::to_string(it) + " the checkpoint file " + (f == st.names.end() ? "does not exist" : "is not the checkpoint of that iteration")); return; }
+    }
+    if (total_ops == 0) { r.violate("writing-mode-writes-nothing", base, base + ": no process touched the checkpoint path"); return; }
+    r.count("mpi_interleaving_states", states);
+    r.count("mpi_processes_writing_max", writers_max);
+    r.state(states);
+    r.transition(transitions);
+    r.distinct(vf::hash_str(base));
+    r.outcome("G: processes that touch the directory", std::to_string(writers_max));
 }
 
 // files other than the checkpoint file that a run writes (temporary files), learnt from a first run
@@ -351,6 +568,14 @@ static void for_type(report& r)
         // other spellings: callback for the base checkpoint type, a checkpoint file named "run.tmp"
         if (mode == 0) { scenario<T, 0>(r, mode, pre != 0, false, -1, 1); scenario<T, 1>(r, mode, pre != 0, false, -1, 1); scenario<T, 0>(r, mode, pre != 0, false, -1, 2); }
         if (r.deadline_hit()) return;
+    }
+    // several processes: every interleaving of the ranks' file operations within an iteration
+    for (int mode = 0; mode != 2; ++mode)
+    for (int pre = 0; pre != 2; ++pre)
+    for (int world = 2; world <= 3; ++world)
+    {
+        mpi_scenario<T, 0>(r, mode, world, pre != 0);
+        if (world == 2) mpi_scenario<T, 2>(r, mode, world, pre != 0);
     }
 }
 
